@@ -3,7 +3,7 @@
 import os, subprocess, sys
 sys.path.insert(0, os.path.dirname(os.path.abspath(__file__)))
 VERIF = os.path.dirname(os.path.dirname(os.path.abspath(__file__)))
-import gen_lean, gen_rates, effects, build_harness
+import gen_lean, gen_rates, effects, specials, build_harness
 def main():
     ros, be, lits, errs = gen_lean.load_all()
     text = gen_lean.emit_lean(ros, be, lits, errs)
@@ -13,6 +13,7 @@ def main():
         open(gp, "w").write(text)
     gen_rates.write()
     effects.write()
+    specials.write()
     r = subprocess.run(["lake", "build", "Micm", "micm_model"], cwd=os.path.join(VERIF, "lean"))
     if r.returncode != 0:
         sys.exit(1)
